@@ -34,6 +34,8 @@ mod e4;
 mod hub;
 mod hubio;
 mod c13;
+mod e5;
+mod c15;
 
 use common::*;
 
@@ -87,13 +89,15 @@ fn main() {
         "C05" => c05::run(&ctx),
         "C20" => c20::run(&ctx),
         "C02" | "C06" | "C07" => e2::run(&ctx, &id),
-        "C15" => e2::run(&ctx, "C15"),
+        "C15" => c15::run(&ctx),
         "C08" => e3::run_c08(&ctx),
         "C09" => e3::run_c09(&ctx),
         "C03" | "C10" => hub::run(&ctx, &id),
         "C11" => hubio::run_c11(&ctx),
         "C12" => hubio::run_c12(&ctx),
         "C13" => c13::run(&ctx),
+        "C04" => e5::run_c04(&ctx),
+        "C14" => e5::run_c14(&ctx),
         _ => machinery_error(format!("unknown property id {id}")),
     }
 }
